@@ -1077,6 +1077,9 @@ class PlainQuantity(Generic[MagnitudeT], PrettyIPython, SharedRegistryObject):
     __idiv__ = __itruediv__
 
     def __ifloordiv__(self, other):
+        converted, other = self._offset_free(other)
+        if converted is not self:
+            self.ito_root_units()
         if self._check(other):
             self._magnitude //= other.to(self._units)._magnitude
         elif self.dimensionless:
@@ -1086,8 +1089,24 @@ class PlainQuantity(Generic[MagnitudeT], PrettyIPython, SharedRegistryObject):
         self._units = self.UnitsContainer({})
         return self
 
+    def _offset_free(self, other):
+        """Operands of //, % and divmod: quantities on an offset or logarithmic scale
+        are taken to root units in autoconvert mode and refused otherwise, like for
+        true division."""
+        operands = [self] + ([other] if isinstance(other, PlainQuantity) else [])
+        if all(op._is_multiplicative for op in operands):
+            return self, other
+        if not self._REGISTRY.autoconvert_offset_to_baseunit:
+            raise OffsetUnitCalculusError(
+                self._units, getattr(other, "units", "")
+            )
+        return self.to_root_units(), (
+            other.to_root_units() if isinstance(other, PlainQuantity) else other
+        )
+
     @check_implemented
     def __floordiv__(self, other):
+        self, other = self._offset_free(other)
         if self._check(other):
             magnitude = self._magnitude // other.to(self._units)._magnitude
         elif self.dimensionless:
@@ -1098,6 +1117,7 @@ class PlainQuantity(Generic[MagnitudeT], PrettyIPython, SharedRegistryObject):
 
     @check_implemented
     def __rfloordiv__(self, other):
+        self, other = self._offset_free(other)
         if self._check(other):
             magnitude = other._magnitude // self.to(other._units)._magnitude
         elif self.dimensionless:
@@ -1108,6 +1128,9 @@ class PlainQuantity(Generic[MagnitudeT], PrettyIPython, SharedRegistryObject):
 
     @check_implemented
     def __imod__(self, other):
+        converted, other = self._offset_free(other)
+        if converted is not self:
+            self.ito_root_units()
         if not self._check(other):
             other = self.__class__(other, self.UnitsContainer({}))
         self._magnitude %= other.to(self._units)._magnitude
@@ -1115,6 +1138,7 @@ class PlainQuantity(Generic[MagnitudeT], PrettyIPython, SharedRegistryObject):
 
     @check_implemented
     def __mod__(self, other):
+        self, other = self._offset_free(other)
         if not self._check(other):
             other = self.__class__(other, self.UnitsContainer({}))
         magnitude = self._magnitude % other.to(self._units)._magnitude
@@ -1122,6 +1146,7 @@ class PlainQuantity(Generic[MagnitudeT], PrettyIPython, SharedRegistryObject):
 
     @check_implemented
     def __rmod__(self, other):
+        self, other = self._offset_free(other)
         if self._check(other):
             magnitude = other._magnitude % self.to(other._units)._magnitude
             return self.__class__(magnitude, other._units)
@@ -1133,6 +1158,7 @@ class PlainQuantity(Generic[MagnitudeT], PrettyIPython, SharedRegistryObject):
 
     @check_implemented
     def __divmod__(self, other):
+        self, other = self._offset_free(other)
         if not self._check(other):
             other = self.__class__(other, self.UnitsContainer({}))
         q, r = divmod(self._magnitude, other.to(self._units)._magnitude)
@@ -1143,6 +1169,7 @@ class PlainQuantity(Generic[MagnitudeT], PrettyIPython, SharedRegistryObject):
 
     @check_implemented
     def __rdivmod__(self, other):
+        self, other = self._offset_free(other)
         if self._check(other):
             q, r = divmod(other._magnitude, self.to(other._units)._magnitude)
             unit = other._units
